@@ -412,10 +412,23 @@ func (o *Ownership) scan(f *ssa.Function, report bool) bool {
 					}
 					continue
 				}
+				// append to a reslice (s[:0], s[:k]) reuses and overwrites the backing array of s; copy writes into its destination
+				if bn := builtinName(&x.Call); bn == "append" && len(x.Call.Args) > 0 {
+					for _, base := range resliceBases(x.Call.Args[0], x, map[ssa.Value]bool{}, 0) {
+						noteElemWrite(base, x, "append-to-reslice", nil)
+					}
+					continue
+				} else if bn == "copy" && len(x.Call.Args) == 2 {
+					if _, isSl := x.Call.Args[0].Type().Underlying().(*types.Slice); isSl {
+						noteElemWrite(x.Call.Args[0], x, "copy-into", nil)
+					}
+					continue
+				}
 				// in-place library routines on slices
 				if callee := x.Call.StaticCallee(); callee != nil && (fnPkgPath(callee) == "sort" || fnPkgPath(callee) == "slices") && len(x.Call.Args) > 0 {
 					name := originName(callee)
-					if name == "Slice" || name == "SliceStable" || name == "Sort" || name == "SortFunc" || name == "Reverse" {
+					if name == "Slice" || name == "SliceStable" || name == "Sort" || name == "SortFunc" || name == "SortStableFunc" || name == "Reverse" ||
+						name == "DeleteFunc" || name == "Delete" || name == "Insert" || name == "Compact" || name == "CompactFunc" || name == "Replace" {
 						arg := unwrapIface(x.Call.Args[0])
 						if _, isSl := arg.Type().Underlying().(*types.Slice); isSl {
 							noteElemWrite(arg, x, "call:"+fnPkgPath(callee)+"."+name, callee)
@@ -739,4 +752,33 @@ func elemFieldFreshBefore(p *Prog, sl ssa.Value, ea ssa.Value, field string, ins
 		}
 	}
 	return false
+}
+
+// resliceBases: v is (an accumulator that starts as) a reslice s[:k] of a slice s:
+// appending to it overwrites the backing array of s. Follows phis and earlier
+// appends of the same accumulator; self is the append being examined.
+func resliceBases(v ssa.Value, self *ssa.Call, seen map[ssa.Value]bool, depth int) []ssa.Value {
+	if v == nil || seen[v] || depth > 8 {
+		return nil
+	}
+	seen[v] = true
+	switch x := v.(type) {
+	case *ssa.Slice:
+		if x.High != nil {
+			if _, isSl := x.X.Type().Underlying().(*types.Slice); isSl {
+				return []ssa.Value{x.X}
+			}
+		}
+	case *ssa.Phi:
+		var res []ssa.Value
+		for _, e := range x.Edges {
+			res = append(res, resliceBases(e, self, seen, depth+1)...)
+		}
+		return res
+	case *ssa.Call:
+		if builtinName(&x.Call) == "append" && len(x.Call.Args) > 0 {
+			return resliceBases(x.Call.Args[0], self, seen, depth+1)
+		}
+	}
+	return nil
 }
